@@ -109,6 +109,19 @@ def cases_for_table(carver, kind, cells, tier, seed, d_cfg, dev_level, nan_cells
 
     for cfg in cfgs:
         out.append(mk(None, None, cfg))
+    # thresholds forced to collide with this table: min_freq_mod just above a cell's frequency (the next multiple of
+    # 0.01), so that a group sits within half a percent under the threshold
+    if not lean:
+        import math
+
+        sizes = [(sum(c) if carver != "continuous" else len(c)) for c in cells]
+        n_rows = sum(sizes)
+        near = sorted({math.ceil(100 * sz / n_rows) / 100 for sz in sizes if (100 * sz) % n_rows and sz / n_rows < 0.5})
+        for mfm in near[:2]:
+            c = dict(default)
+            c["min_freq_mod"] = mfm
+            c["min_freq"] = 0.05
+            out.append(mk(None, None, c))
     alpha = alphabet(carver, tier)
     for nc in nan_cells:
         for dropna in (True, False):
@@ -136,6 +149,16 @@ def cases_for_table(carver, kind, cells, tier, seed, d_cfg, dev_level, nan_cells
         for dn in (nc, None):
             dev = {"cells": [list(x) for x in cells], "nan": list(dn) if dn is not None else None, "name": "same+nan" if dn else "same-nonan"}
             out.append(mk(nc, dev, default))
+        # the share of missing rows differs between train and dev and a group sits near min_freq_mod:
+        # frequencies of the first search are over the non-missing rows of each sample
+        big = tuple(4 * v for v in nc) if carver != "continuous" else tuple(nc) * 4
+        for dn in (big,):
+            for mfm in (0.25, 0.125):
+                for dropna in (True, False):
+                    c = dict(default)
+                    c["min_freq_mod"] = mfm
+                    dev = {"cells": [list(x) for x in cells], "nan": list(dn), "name": "same+bignan"}
+                    out.append(mk(nc, dev, c, dropna))
     return out
 
 
